@@ -154,6 +154,13 @@ func (p *C12) Gen(seed uint64, i int, tier string) *scen.Scenario {
 	if r.Bool() {
 		cell.Args = []scen.Arg{{K: "key", S: "k"}, {K: "i", I: int64(r.Intn(1000))}, {K: "key", S: "e"}, {K: "err", S: "some error"}}
 	}
+	if r.Chance(1, 12) {
+		// sizes around the library's internal thresholds (pooled slice hint 128, cap 1024) and beyond
+		n := scen.Pick(r, []int{60, 130, 500, 1030, 1500, 2500})
+		for k := 0; k < n; k++ {
+			cell.Args = append(cell.Args, scen.Arg{K: "attr", Key: fmt.Sprintf("a%d", k), Items: []scen.Arg{{K: "i", I: int64(k)}}})
+		}
+	}
 	sc.Setup = append(sc.Setup, cell)
 	others(r.Range(1, 3))
 	return sc
